@@ -73,6 +73,10 @@ func (t *composedPerVehicleTypeExpressionImpl) HasNegativeValues() bool {
 		return true
 	}
 	for _, expression := range t.expressions {
+		// vehicle types without their own expression use the default expression
+		if expression == nil {
+			continue
+		}
 		if expression.HasNegativeValues() {
 			return true
 		}
@@ -85,6 +89,9 @@ func (t *composedPerVehicleTypeExpressionImpl) HasPositiveValues() bool {
 		return true
 	}
 	for _, expression := range t.expressions {
+		if expression == nil {
+			continue
+		}
 		if expression.HasPositiveValues() {
 			return true
 		}
